@@ -56,7 +56,9 @@ def cases(tier):
         if post is prod_post:
             # two-operand Dekker products: each operation is a 2-variable bit-blasted query that runs into the budget even at
             # float16 (measured 600 s time-outs): generated in the thorough tier only, attempted, never claimed
-            if tier != "thorough":
+            # (float16 only: building the queries for float32/float64 alone took the thorough run beyond half an hour of
+            # single-threaded path exploration, for obligations that are never claimed)
+            if tier != "thorough" or t is not T16:
                 return
             claimed, budget = False, 300
         out.append(dict(name=name, fn=fn, nin=nin, post=post, t=t, claimed=claimed, extra_pre=extra_pre, high=high, widths=widths, budget=budget, ctxkind=ctxkind))
@@ -341,7 +343,7 @@ def build(tier, only=None):
         "width clause stated for halves that are zero or normal",
         "select forks the path (both branches verified under their conditions); Expr.reference(...) is a naming hint (dropped)",
         "the algorithms.py copies are run with the splitter constant selected by the real get_veltkamp_splitter_constant from the format's largest value",
-        "float32: the last addition of 2Sum and the Dekker products have no solver head-room: generated and attempted with a budget, not claimed; float64 only in the thorough tier, not claimed",
+        "float32: the last addition of 2Sum and the Dekker products have no solver head-room: generated and attempted with a budget, not claimed; two-operand Dekker products: float16, thorough tier only, not claimed; float64 only in the thorough tier, not claimed",
     )
     rep.extraction_drops.append("the make_api dispatch wrapper runs for real on a NumpyContext subclass; mp_ctx (multiprecision override) paths are not taken")
     cs = cases(tier)
